@@ -345,8 +345,14 @@ func (v *numericValidator) generate(out *codegen.Emitter, format string) {
 		if v.roundToInt {
 			out.Printlnf(`if %s %s%s %% %v != 0 {`, checkPointer, pointerPrefix, value, v.valueOf(*v.multipleOf))
 		} else {
+			operand := pointerPrefix + value
+			if v.fieldName == "" {
+				// The value of a named number type is of a defined type, which math.Mod does not take.
+				operand = "float64(" + operand + ")"
+			}
+
 			out.Printlnf(
-				`if %s math.Abs(math.Mod(%s%s, %v)) > 1e-10 {`, checkPointer, pointerPrefix, value, v.valueOf(*v.multipleOf))
+				`if %s math.Abs(math.Mod(%s, %v)) > 1e-10 {`, checkPointer, operand, v.valueOf(*v.multipleOf))
 		}
 
 		out.Indent(1)
